@@ -361,6 +361,15 @@ impl World {
 
     /// one line of the primitive-level trace: what was called, what storage gained, what the replica shows
     fn emit(&mut self, prim: &str, r: usize, res: &str, extra: Value) {
+        if prim == "commit" {
+            // a pack written by a commit (successful or not) can complete blocks this replica holds back: until
+            // its next refresh the storage may hold more than the replica has applied
+            if let Some(m) = &self.reps[r].m {
+                if m.verif_delta_status().values().any(|s| *s != "applied") {
+                    self.reps[r].dirty = true;
+                }
+            }
+        }
         if !self.ptrace_on {
             return;
         }
@@ -825,6 +834,7 @@ impl World {
 
     fn op_commit(&mut self, r: usize, info: Value) {
         let is_sim = self.reps[r].be.is_sim();
+        let dirty_before = self.reps[r].dirty;
         let m = self.reps[r].m.as_ref().unwrap();
         let had_staging = m.has_staging();
         let read_before = read_res(m);
@@ -917,8 +927,29 @@ impl World {
                 if !self.light {
                     let f_after = fresh_obs(&items_after);
                     let mine = obs_doc(m);
-                    if !self.reps[r].dirty && f_after != mine {
-                        fails.push(("C03", format!("a replica reopened after commit differs from the committing replica: {}", first_diff(&mine, &f_after))));
+                    // Blocks the committing replica holds back (a pack or an object they need is missing) can be
+                    // completed by the very pack this commit wrote - a replica that made the same edit elsewhere
+                    // produced the same object.  A reopened replica applies them at once, the committing one at
+                    // its next refresh (C02; `C03b.commit_needs_noneUnblocked` is the model's counterexample).
+                    // Durability of THIS commit is then judged on the storage without those held-back blocks.
+                    let held: Vec<String> = m.verif_delta_status().iter().filter(|(_, s)| **s != "applied").map(|(k, _)| format!("{}.delta", k)).collect();
+                    if !dirty_before {
+                        if held.is_empty() {
+                            if f_after != mine {
+                                fails.push(("C03", format!("a replica reopened after commit differs from the committing replica: {}", first_diff(&mine, &f_after))));
+                            }
+                        } else {
+                            let mut it = items_after.clone();
+                            for k in &held {
+                                it.remove(k);
+                            }
+                            let f2 = strip_blocked(&fresh_obs(&it));
+                            let mine2 = strip_blocked(&mine);
+                            if f2 != mine2 {
+                                fails.push(("C03", format!("a replica reopened after commit (held-back blocks set aside) differs from the committing replica: {}", first_diff(&mine2, &f2))));
+                            }
+                            *self.stats.entry("commit_with_held_back_blocks".into()).or_insert(0) += 1;
+                        }
                     }
                     if is_sim && !log.is_empty() {
                         let f_before = fresh_obs(&items_before);
